@@ -228,7 +228,44 @@ def run_hash_case(case, part):
             check_parse(part, lambda w2=w2: copy.deepcopy(w2), loc, harness.locate(w2, loc), version, key, dict(case, slot=list(path), style=style, context="parse(dict)"), "hash-digest-letter-case/" + style, "hash:")
 
 
+TEXTS = [("combining-acute", "cafe\u0301"), ("angstrom-sign", "\u212b ngstr\u00f6m"), ("hangul-jamo", "\u1100\u1161"), ("cjk-compatibility", "\uf900"), ("nfd-and-nfc-mixed", "\u00e9e\u0301"),
+         ("ohm-sign", "50 \u2126"), ("astral+combining", "\U0001f600\u0301"), ("leading-combining", "\u0301x"), ("fullwidth", "\uff21\uff22\uff11"), ("ligature-fi", "\ufb01le"),
+         ("trailing-space", "x "), ("leading-space", " x"), ("inner-tab-newline", "a\tb\nc"), ("nbsp", "a\u00a0b"), ("zero-width-joiner", "a\u200db"), ("crlf", "a\r\nb"),
+         ("upper-lower-not-one-to-one", "Stra\u00dfe \u0130i"), ("control-char", "a\u0001b"), ("bidi-mark", "a\u200fb"), ("very-long", "x" * 70000)]
+
+
+def run_text_case(case, part):
+    """every free-text slot of the maximal instance with text the library has no business touching: not normalised (NFC/NFKC), not trimmed, not re-cased -
+    the code points given are content and must come back"""
+    env.reset()
+    version, key = case["version"], case["key"]
+    wrapped = loc = None
+    for k2, l2, i2, w2, loc2 in harness.all_cases(version, keys=[key]):
+        if l2 == "max":
+            wrapped, loc = w2, loc2
+            break
+    if wrapped is None:
+        return
+    tkey = model.spec(version).key_for_type(wrapped["type"])
+    for path, v, p, ckey, pname in harness.typed_slots(wrapped, version, tkey):
+        kind = p["kind"]
+        if kind not in ("string", "openvocab") or not isinstance(v, str) or "fixed" in p or pname in ("pattern", "pattern_type", "pattern_version", "lang", "extension_type"):
+            continue
+        for tlabel, text in TEXTS:
+            if case.get("text") and tlabel != case["text"]:
+                continue
+            w2 = gen.set_path(wrapped, path, text)
+            if model.validate(w2, version):
+                part.outcome("text:not-valid-here")
+                continue
+            check_parse(part, lambda w2=w2: copy.deepcopy(w2), loc, harness.locate(w2, loc), version, key, dict(case, slot=list(path), text=tlabel, context="parse(dict)"), "free-text/" + tlabel, "text:")
+            if tlabel != "very-long":
+                check_parse(part, lambda w2=w2: json.dumps(w2), loc, harness.locate(w2, loc), version, key, dict(case, slot=list(path), text=tlabel, context="parse(text)"), "free-text/" + tlabel, "text:")
+
+
 def run_any(case, part):
+    if case.get("kind") == "text-case":
+        return run_text_case(case, part)
     if case.get("kind") == "hash-case":
         return run_hash_case(case, part)
     if case.get("kind") == "cross-version-history":
@@ -274,6 +311,7 @@ def run(run):
     for version in ("2.0", "2.1"):
         for key in gen.Gen(version).top_keys():
             cases.append({"kind": "hash-case", "version": version, "key": key})
+            cases.append({"kind": "text-case", "version": version, "key": key})
     for version, which in (("2.0", "long-lists"), ("2.1", "long-lists"), ("2.1", "prefix-keys"), ("2.1", "long-nested-list")):
         cases.append({"kind": "granular-extra", "version": version, "which": which})
     run.pmap(run_any, cases, order_independent=True)
